@@ -193,6 +193,9 @@ func c13Worker(w *W) {
 	mode := w.Arg("mode", "continuous")
 	W := w.ArgInt("writers", 4)
 	interval := time.Duration(w.ArgInt("interval_s", 1)) * time.Second
+	if ms := w.ArgInt("interval_ms", 0); ms > 0 {
+		interval = time.Duration(ms) * time.Millisecond // a user-registered period that is not a whole number of seconds
+	}
 	boundaries := int(w.Spec.N)
 	dir := filepath.Join(w.Spec.Dir, w.Spec.Name+".d")
 	_ = os.RemoveAll(dir)
@@ -244,7 +247,7 @@ func c13Worker(w *W) {
 			}
 			return
 		}
-		if name == "roll.write.loaded" && mode != "sequential" && mode != "seqrestart" {
+		if name == "roll.write.loaded" && mode != "sequential" && mode != "seqrestart" && mode != "seqsteady" {
 			now := time.Now()
 			nb := now.Truncate(interval).Add(interval)
 			// hold only part of the writers, so that the others cross the boundary and rotate meanwhile
@@ -361,6 +364,8 @@ func c13Worker(w *W) {
 					}
 					for time.Now().Before(at) {
 					}
+				case "seqsteady":
+					time.Sleep(20 * time.Millisecond) // one writer, one write every 20 ms: every part of every interval is visited
 				case "seqrestart":
 					// one writer; every now and then - between two writes - the very same appender object is stopped and started
 					// again; it must go on rotating like a fresh one
@@ -515,7 +520,7 @@ func c13Worker(w *W) {
 			if t, ok := seqFrom.Load().(time.Time); ok && mode == "stalledrotator" && rc.start.After(t.Add(50*time.Millisecond)) {
 				seqPhase = true // well after the stall: one writer, one write at a time
 			}
-			if mode == "sequential" || mode == "seqrestart" || seqPhase {
+			if mode == "sequential" || mode == "seqrestart" || mode == "seqsteady" || seqPhase {
 				// one write at a time: a write started in interval k must be in a file created in interval k or later
 				if f[0].nameTime.Before(rc.start.Truncate(interval).Truncate(time.Second)) {
 					bad = true
@@ -611,7 +616,7 @@ func c13Worker(w *W) {
 func init() {
 	register(&Prop{
 		ID: "C13", Level: "exploration", MinDistinct: 5, Worker: c13Worker,
-		Rule: "RollingFileAppender built directly with 1 s / 2 s intervals, crossed by real boundaries (quick 3-4, thorough up to 10) in parallel child processes: continuous writers (4-16), bursts aligned just before each boundary (16 writers x 20 records), a sequential writer that also idles across whole intervals, 8 writers that are all silent for more than a whole interval and then resume at the same instant (3+ times), a sequential writer whose appender object is stopped and started again between writes, events appended one at a time whose own time field is frozen / 90 s ahead / in 2001 / zero (rotation and names follow the real time of the write), retentions of 876000 / 5000000 / 2147483647 hours, Stop/Start cycles several times per second, Start on a directory pre-seeded with same-named files for the current and following seconds, a mix with one-byte writes, a run in which one writer is stalled for more than two whole intervals inside Write, a run in which the rotating goroutine is overtaken by the next rotation and a single writer then continues alone, and a sequential run during which the local clock falls back by one hour (synthetic time zone); " +
+		Rule: "RollingFileAppender built directly with 1 s / 2 s intervals, crossed by real boundaries (quick 3-4, thorough up to 10) in parallel child processes: continuous writers (4-16), bursts aligned just before each boundary (16 writers x 20 records), a sequential writer that also idles across whole intervals, 8 writers that are all silent for more than a whole interval and then resume at the same instant (3+ times), a sequential writer whose appender object is stopped and started again between writes, a steady sequential writer (one write every 20 ms) with rotation periods of 700 / 1500 / 2500 ms, events appended one at a time whose own time field is frozen / 90 s ahead / in 2001 / zero (rotation and names follow the real time of the write), retentions of 876000 / 5000000 / 2147483647 hours, Stop/Start cycles several times per second, Start on a directory pre-seeded with same-named files for the current and following seconds, a mix with one-byte writes, a run in which one writer is stalled for more than two whole intervals inside Write, a run in which the rotating goroutine is overtaken by the next rotation and a single writer then continues alone, and a sequential run during which the local clock falls back by one hour (synthetic time zone); " +
 			"records are self-describing frames of 12 B - 64 KiB with client-side snapshot (length+CRC) and wall-clock start/end stamps; a guarded yield point holds half of the writers that loaded the current file within 12 ms of a boundary until another writer has completed the rotation (at most 300 ms after the boundary), and adds 0-4 ms inside rotate() (all below one interval). " +
 			"Oracle over the final directory: every record whole, exactly once, in exactly one file named <name>.<14 digits>; no record in a file whose name-time is after the write completed; sequential mode: a write started in interval k is not in a file older than interval k; pre-existing content preserved; one-byte writes counted. Non-trivial/distinct = distinct (mode, writers, interval, build flavour, files created) runs that held.",
 		Assumptions: []string{"delays injected at yield points stay <= 300 ms, below one rotation interval, except in the stalled-writer run, where one writer is held for 2.3 intervals between loading the current file and writing (two rotations pass)", "wall clock is monotone during a run; file-name times are compared at one-second resolution"},
@@ -632,6 +637,11 @@ func init() {
 			add("sequential", 1, 1, "plain", nb+1)
 			add("idleburst", 8, 1, "plain", nb+4)
 			add("seqrestart", 1, 1, "plain", nb+1)
+			for _, ms := range []string{"1500", "2500", "700"} {
+				add("seqsteady", 1, 1, "plain", nb)
+				specs[len(specs)-1].Name += "-" + ms + "ms"
+				specs[len(specs)-1].Args["interval_ms"] = ms
+			}
 			for i := 0; i < 4; i++ { // event times that do not come from the wall clock (frozen, ahead, 2001, zero)
 				add("hookclock", 1, 1, "plain", nb)
 				specs[len(specs)-1].Name += fmt.Sprint(i)
